@@ -684,7 +684,9 @@ int32 dtlsChkReplayWindow(ssl_t *ssl, unsigned char *seq64)
         }
         else
         {
-            ssl->lastRsn[0] = 1;       /* This packet has a "way larger" */
+            /* This packet is "way larger": everything the bitmap remembers
+               has fallen out of the window; only this packet is in it. */
+            ssl->dtlsBitmap = 1;
         }
         Memcpy(ssl->lastRsn, seq64, 6);
         return 1;                   /* larger is good */
